@@ -93,4 +93,9 @@ def run(ctx):
                        what='outcome class differs from the model (no crash observed)')
         if tag in ('mutant', 'huge') or (tag == 'prefix' and 0 < len(data)):
             ctx.mark_nontrivial((kind, data))
+    # tokio request parser on the same malformed inputs (class only)
+    ti = [i for i, l in enumerate(lines) if l.startswith('safe_req')]
+    if ctx.tier != 'thorough':
+        ti = ti[::2]
+    ctx.tokio_twin([lines[i] for i in ti], [m[i] for i in ti], 'http-class-tokio', what='tokio request parser: outcome class differs / crash')
     ctx.sample({'part': 'http', 'case': lines[len(lines) // 3][:200], 'impl': im[len(lines) // 3]})
